@@ -455,6 +455,84 @@ type c20NodeRaw struct {
 	sel   c20Sel
 	strat c20J          // strategy fields (inline); nil = none
 	apps  []interface{} // host section
+	name  string        // the entry's profile name (NodeCfgProfile.Name)
+	named bool          // false: the entry carries no "name" key at all (name == "")
+}
+
+// c20GenNames: the profile names of a section's n node entries.  Names are documentation only ("like ID ... useful for
+// console"): the statement selects the first matching entry in DOCUMENT order whatever the names are.  Modes: 0 no names,
+// 1 all named in lexical order, 2 all named, out of lexical order, 3 all named with duplicates, 4 partly named
+// (some entries without the key or with ""), 5 the legacy e0,e1,.. numbering.
+func c20GenNames(r *vRand, n int) ([]c20NodeRaw, int) {
+	out := make([]c20NodeRaw, n)
+	mode := r.Intn(6)
+	pool := []string{"a", "b", "c", "d", "B", "a1", "z", "node-pool-1", "10", "9"}
+	sorted := append([]string{}, pool...)
+	sort.Strings(sorted)
+	switch mode {
+	case 0:
+	case 1:
+		start := r.Intn(len(sorted) - n + 1)
+		for i := range out {
+			out[i].name, out[i].named = sorted[start+i], true
+		}
+	case 2:
+		start := r.Intn(len(sorted) - n + 1)
+		for i := range out { // strictly descending: every pair is out of order
+			out[i].name, out[i].named = sorted[start+n-1-i], true
+		}
+		if n > 2 && r.Bool() { // or some other non-sorted arrangement
+			pm := r.Perm(n)
+			for i := range out {
+				out[i].name = sorted[start+pm[i]]
+			}
+		}
+	case 3:
+		for i := range out {
+			out[i].name, out[i].named = []string{"dup", "a"}[r.Intn(2)], true
+		}
+		if n > 1 {
+			out[n-1].name = out[0].name
+		}
+	case 4:
+		for i := range out {
+			switch r.Intn(3) {
+			case 0:
+				out[i].name, out[i].named = pool[r.Intn(len(pool))], true
+			case 1:
+				out[i].name, out[i].named = "", true // explicit ""
+			}
+		}
+		if n > 0 {
+			k := r.Intn(n)
+			out[k].name, out[k].named = "", r.Bool()
+		}
+	default:
+		for i := range out {
+			out[i].name, out[i].named = fmt.Sprintf("e%d", i), true
+		}
+	}
+	return out, mode
+}
+
+var c20NameModes = []string{"absent", "in-order", "out-of-order", "duplicates", "partly", "numbered"}
+
+// c20NameSortedFirst: which of the matching entries a reading "smallest profile name first" (stable) would take, given the
+// section's entries; -1 when that reading does not apply (some entry unnamed).  Only used to TAG inputs on which document
+// order and name order disagree.
+func c20NameSortedFirst(nodes []c20NodeRaw, matching []int) int {
+	for _, n := range nodes {
+		if n.name == "" {
+			return -1
+		}
+	}
+	best := -1
+	for _, i := range matching {
+		if best < 0 || nodes[i].name < nodes[best].name {
+			best = i
+		}
+	}
+	return best
 }
 
 type c20SecRaw struct {
@@ -502,8 +580,17 @@ func c20GenSection(r *vRand, sec int) c20SecRaw {
 	}
 	nn := r.Intn(4)
 	var nodes []interface{}
+	names, _ := c20GenNames(r, nn)
+	overlap := nn > 1 && r.Chance(1, 3) // overlapping selectors on purpose: a later entry repeats (or widens to match-all) an earlier selector
 	for i := 0; i < nn; i++ {
-		n := c20NodeRaw{sel: c20GenSel(r)}
+		n := c20NodeRaw{sel: c20GenSel(r), name: names[i].name, named: names[i].named}
+		if overlap && i > 0 && s.nodes[0].sel.kind == 2 {
+			if r.Bool() {
+				n.sel = s.nodes[0].sel
+			} else {
+				n.sel = c20Sel{kind: 2, json: c20J{}}
+			}
+		}
 		e := c20J{}
 		if sec == 4 {
 			if r.Chance(5, 6) {
@@ -516,7 +603,9 @@ func c20GenSection(r *vRand, sec int) c20SecRaw {
 				e[k] = v
 			}
 		}
-		e["name"] = fmt.Sprintf("e%d", i)
+		if n.named {
+			e["name"] = n.name
+		}
 		if n.sel.json != nil {
 			e["nodeSelector"] = n.sel.json
 		} else if r.Bool() {
